@@ -32,9 +32,29 @@ type Parser struct {
 // NewParserWithReader returns a new parser for the specified reader.
 func NewParserWithReader(msgReader io.Reader) *Parser {
 	Parser := &Parser{
-		reader: msgReader,
+		reader: progressReader{msgReader},
 	}
 	return Parser
+}
+
+// progressReader hides the reads of a reader which return neither a byte nor an error.
+// Such a read means that nothing happened (io.Reader), it is neither the end of the stream
+// nor a byte: the read is tried again, and a reader which keeps doing so is given up.
+type progressReader struct {
+	io.Reader
+}
+
+func (reader progressReader) Read(p []byte) (int, error) {
+	if len(p) == 0 {
+		return 0, nil
+	}
+	for i := 0; i < maxEmptyReads; i++ {
+		n, err := reader.Reader.Read(p)
+		if n != 0 || err != nil {
+			return n, err
+		}
+	}
+	return 0, io.ErrNoProgress
 }
 
 // NewParserWithBytes returns a new parser for the specified bytes.
